@@ -13,8 +13,11 @@
 (*  [y|->"tuple", name, elems]          record `name` carrying the tuple   *)
 (*                                      attribute when Len(elems) >= 2     *)
 (*  [y|->"tuple_struct", name, elems]                                      *)
-(*  [y|->"struct", name, flds|-><<[fname, fty, dflt, alias]>>]             *)
-(*        dflt = "" or a key of DefMenu; alias = "" or an alias name       *)
+(*  [y|->"struct", name, asmap, flds|-><<[fname, fty, dflt, alias, ser]>>] *)
+(*        dflt = "" or a key of DefMenu; alias = "" or an alias name;      *)
+(*        ser = "yes" | "no" (never serialized) | "ifsome" (skipped when   *)
+(*        None); asmap: the struct is written through serialize_map        *)
+(*        (serde's flatten)                                                *)
 (*  [y|->"enum", name, repr|->"enum"|"uor"|"bare", vars|-><<[vname, vk,..]>>]*)
 (*        vk = "unit" | "newtype" (of) | "tuple" (elems) | "struct" (flds) *)
 (* Names are unqualified; `ns` (possibly "") gives the namespace.          *)
@@ -31,11 +34,14 @@ TUnitStruct(n) == [y |-> "unit_struct", name |-> n, ns |-> ""]
 TNewtype(n, t) == [y |-> "newtype_struct", name |-> n, ns |-> "", of |-> t]
 TTuple(n, ts) == [y |-> "tuple", name |-> n, ns |-> "", elems |-> ts]
 TTupleStruct(n, ts) == [y |-> "tuple_struct", name |-> n, ns |-> "", elems |-> ts]
-F(n, t) == [fname |-> n, fty |-> t, dflt |-> "", alias |-> ""]
-FD(n, t, d) == [fname |-> n, fty |-> t, dflt |-> d, alias |-> ""]
-FA(n, t, a) == [fname |-> n, fty |-> t, dflt |-> "", alias |-> a]
-TStruct(n, fs) == [y |-> "struct", name |-> n, ns |-> "", flds |-> fs]
-TStructNs(ns, n, fs) == [y |-> "struct", name |-> n, ns |-> ns, flds |-> fs]
+F(n, t) == [fname |-> n, fty |-> t, dflt |-> "", alias |-> "", ser |-> "yes"]
+FD(n, t, d) == [fname |-> n, fty |-> t, dflt |-> d, alias |-> "", ser |-> "yes"]
+FA(n, t, a) == [fname |-> n, fty |-> t, dflt |-> "", alias |-> a, ser |-> "yes"]
+FIfSome(n, t, d) == [fname |-> n, fty |-> t, dflt |-> d, alias |-> "", ser |-> "ifsome"]  \* skip_serializing_if = "Option::is_none"
+FNever(n, t, d) == [fname |-> n, fty |-> t, dflt |-> d, alias |-> "", ser |-> "no"]       \* #[serde(skip_serializing)]
+TStruct(n, fs) == [y |-> "struct", name |-> n, ns |-> "", flds |-> fs, asmap |-> FALSE]
+TStructNs(ns, n, fs) == [y |-> "struct", name |-> n, ns |-> ns, flds |-> fs, asmap |-> FALSE]
+TStructMap(n, fs) == [y |-> "struct", name |-> n, ns |-> "", flds |-> fs, asmap |-> TRUE]   \* #[serde(flatten)] inside
 VUnit(n) == [vname |-> n, vk |-> "unit"]
 VNewtype(n, t) == [vname |-> n, vk |-> "newtype", of |-> t]
 VTuple(n, ts) == [vname |-> n, vk |-> "tuple", elems |-> ts]
@@ -161,30 +167,40 @@ ScalarTerms(y, full) ==
 
 RECURSIVE TermsOf(_, _)
 
-(* all in-order call sequences for a field list: every field serialized (values thinned) *)
+(* all in-order call sequences for a field list: every field serialized (values thinned);
+   beyond three fields only the two "diagonals" (first choice everywhere / second choice everywhere) *)
+First(S) == CHOOSE x \in S : TRUE
+Second(S) == IF Cardinality(S) = 1 THEN First(S) ELSE CHOOSE x \in S \ {First(S)} : TRUE
 FieldTuples(fs) ==
   IF Len(fs) = 0 THEN {<<>>}
   ELSE IF Len(fs) = 1 THEN {<< <<fs[1].fname, x>> >> : x \in TermsOf(fs[1].fty, FALSE)}
   ELSE IF Len(fs) = 2
   THEN {<< <<fs[1].fname, x>>, <<fs[2].fname, y>> >> :
            x \in Pick2(TermsOf(fs[1].fty, FALSE)), y \in Pick2(TermsOf(fs[2].fty, FALSE))}
-  ELSE {<< <<fs[1].fname, x>>, <<fs[2].fname, y>>, <<fs[3].fname, z>> >> :
+  ELSE IF Len(fs) = 3
+  THEN {<< <<fs[1].fname, x>>, <<fs[2].fname, y>>, <<fs[3].fname, z>> >> :
            x \in Pick2(TermsOf(fs[1].fty, FALSE)), y \in Pick2(TermsOf(fs[2].fty, FALSE)),
            z \in Pick2(TermsOf(fs[3].fty, FALSE))}
+  ELSE {[i \in 1..Len(fs) |-> <<fs[i].fname, First(TermsOf(fs[i].fty, FALSE))>>],
+        [i \in 1..Len(fs) |-> <<fs[i].fname, Second(TermsOf(fs[i].fty, FALSE))>>]}
 
 ElemTuples(ts) ==
   IF Len(ts) = 0 THEN {<<>>}
   ELSE IF Len(ts) = 1 THEN {<<x>> : x \in TermsOf(ts[1], FALSE)}
   ELSE IF Len(ts) = 2 THEN {<<x, y>> : x \in Pick2(TermsOf(ts[1], FALSE)), y \in Pick2(TermsOf(ts[2], FALSE))}
-  ELSE {<<x, y, z>> : x \in Pick2(TermsOf(ts[1], FALSE)), y \in Pick2(TermsOf(ts[2], FALSE)),
-                      z \in Pick2(TermsOf(ts[3], FALSE))}
+  ELSE {[i \in 1..Len(ts) |-> First(TermsOf(ts[i], FALSE))], [i \in 1..Len(ts) |-> Second(TermsOf(ts[i], FALSE))]}
 
-(* variants of a call sequence: defaulted fields replaced by skip_field, or left out altogether *)
-SkipVariants(fs, calls) ==
-  LET D == {i \in 1..Len(fs) : fs[i].dflt # ""} IN
+(* variants of a call sequence: defaulted fields replaced by skip_field, or left out altogether;
+   fields that are never serialized are always left out *)
+SkipVariants(fs, calls00) ==
+  LET calls0 == [i \in 1..Len(fs) |-> IF fs[i].ser = "ifsome" /\ calls00[i][2].c = "none"
+                                       THEN <<fs[i].fname, [c |-> "skip"]>> ELSE calls00[i]]
+      Ser(e) == \A i \in 1..Len(fs) : fs[i].fname = e[1] => fs[i].ser # "no"
+      calls == SelectSeq(calls0, Ser)
+      D == {i \in 1..Len(fs) : fs[i].dflt # "" /\ fs[i].ser # "no"} IN
   IF D = {} THEN {calls}
   ELSE {calls,
-        [i \in 1..Len(fs) |-> IF i \in D THEN <<fs[i].fname, [c |-> "skip"]>> ELSE calls[i]],
+        SelectSeq([i \in 1..Len(fs) |-> IF i \in D THEN <<fs[i].fname, [c |-> "skip"]>> ELSE calls0[i]], Ser),
         SelectSeq(calls, LAMBDA e : \A i \in D : fs[i].fname # e[1])}
 
 NonSkip(calls) == Len(SelectSeq(calls, LAMBDA e : e[2].c # "skip"))
@@ -217,8 +233,10 @@ TermsOf(ty, full) ==
     [] ty.y = "tuple" -> {[c |-> "tuple", items |-> q] : q \in ElemTuples(ty.elems)}
     [] ty.y = "tuple_struct" -> {[c |-> "tuple_struct", name |-> ty.name, items |-> q] : q \in ElemTuples(ty.elems)}
     [] ty.y = "struct" ->
-         UNION {{[c |-> "struct", name |-> ty.name, len |-> NonSkip(q), fields |-> q] : q \in SkipVariants(ty.flds, q0)}
-                : q0 \in FieldTuples(ty.flds)}
+         IF ty.asmap
+         THEN {[c |-> "structmap", hint |-> FALSE, fields |-> q] : q \in FieldTuples(ty.flds)}
+         ELSE UNION {{[c |-> "struct", name |-> ty.name, len |-> NonSkip(q), fields |-> q] : q \in SkipVariants(ty.flds, q0)}
+                     : q0 \in FieldTuples(ty.flds)}
     [] ty.y = "enum" -> UNION {VariantTerms(ty, i) : i \in 1..Len(ty.vars)}
 
 (***************************************************************************)
@@ -269,6 +287,67 @@ Composite ==
         TStruct("R", <<FD("a", TSeq(TS("str")), "aempty"), FD("b", TMap(TS("i32")), "mempty"), FD("c", Inner, "rx5")>>)}
   \cup {E3, UorE, BareE, BareSeq, TFixedBytes("Fx2", 2), TFixedBytes("Fx0", 0)}
 
+(***************************************************************************)
+(* The corpus of real Rust types of the harness (harness/src/c16.rs): the  *)
+(* key is the registry name there, the value the type as the model sees    *)
+(* it.  The harness builds values of the real type from TermsOf, so that   *)
+(* serde's own derive is checked against the representation assumed here.  *)
+(***************************************************************************)
+CInner == TStruct("Inner", <<F("x", TS("i32"))>>)
+CInner2 == TStruct("Inner2", <<F("y", TS("str"))>>)
+CInner3 == TStruct("Inner3", <<F("z", TS("bool"))>>)
+CE3 == TEnum("E3", "enum", <<VUnit("A"), VUnit("B"), VUnit("C")>>)
+CVars == <<VUnit("U0"), VNewtype("N1", TS("i32")), VTuple("T2", <<TS("i32"), TS("str")>>),
+           VStruct("S3", <<F("a", TS("i64")), F("b", TOpt(TS("str")))>>)>>
+Corpus ==
+  [ Ints   |-> TStruct("Ints", <<F("a", TS("i8")), F("b", TS("i16")), F("c", TS("i32")), F("d", TS("i64"))>>),
+    Uints  |-> TStruct("Uints", <<F("a", TS("u8")), F("b", TS("u16")), F("c", TS("u32"))>>),
+    Bigs   |-> TStruct("Bigs", <<F("a", TS("u64")), F("b", TS("i128")), F("c", TS("u128"))>>),
+    Floats |-> TStruct("Floats", <<F("a", TS("f32")), F("b", TS("f64"))>>),
+    Texts  |-> TStruct("Texts", <<F("a", TS("char")), F("b", TS("str")), F("c", TS("bool"))>>),
+    BytesS |-> TStruct("BytesS", <<F("a", TS("bytes")), F("z", TS("i32"))>>),
+    Opts   |-> TStruct("Opts", <<F("a", TOpt(TS("i32"))), F("b", TOpt(TS("str")))>>),
+    OptLast |-> TStruct("OptLast", <<F("a", TOptLast(TS("i32")))>>),
+    UnitS  |-> TUnitStruct("UnitS"),
+    Nt     |-> TNewtype("Nt", TS("i32")),
+    NtStr  |-> TNewtype("NtStr", TS("str")),
+    Ts2    |-> TTupleStruct("Ts2", <<TS("u16"), TS("char")>>),
+    Ts0    |-> TTupleStruct("Ts0", <<>>),
+    Seqs   |-> TStruct("Seqs", <<F("a", TSeq(TS("i32"))), F("b", TSeq(TS("str")))>>),
+    Nest   |-> TStruct("Nest", <<F("i", CInner), F("v", TSeq(CInner2)), F("o", TOpt(CInner3))>>),
+    Maps   |-> TStruct("Maps", <<F("a", TMap(TS("i32"))), F("b", TMap(TS("str")))>>),
+    Tup    |-> TStruct("Tup", <<F("t", TTuple("Tup2", <<TS("i32"), TS("str")>>)), F("u", TS("unit"))>>),
+    Arr    |-> TStruct("Arr", <<F("a", TTuple("Arr3", <<TS("u8"), TS("u8"), TS("u8")>>))>>),
+    E3     |-> CE3,
+    WithEnum |-> TStruct("WithEnum", <<F("e", CE3), F("n", TS("i32"))>>),
+    UorE   |-> TEnum("UorE", "uor", CVars),
+    BareE  |-> TEnum("BareE", "bare", CVars),
+    SkipIf |-> TStruct("SkipIf", <<F("a", TS("i32")), FIfSome("b", TOpt(TS("i32")), "onull"), F("c", TS("str"))>>),
+    SkipSer |-> TStruct("SkipSer", <<FNever("a", TS("i32"), "i42"), F("b", TS("str"))>>),
+    SkipBoth |-> TStruct("SkipBoth", <<F("b", TS("i64"))>>),
+    Renamed |-> TStruct("Renamed", <<F("x", TS("i32")), F("type", TS("str"))>>),
+    Aliased |-> TStruct("Aliased", <<FA("a", TS("i32"), "old_a"), F("b", TS("str"))>>),
+    Flat   |-> TStructMap("Flat", <<F("a", TS("i32")), F("b", TS("str")), F("c", TS("i64"))>>),
+    SvE    |-> TEnum("SvE", "uor", <<VStruct("S", <<F("a", TS("i32")), FIfSome("b", TOpt(TS("i32")), "onull")>>), VUnit("U")>>),
+    Deep   |-> TStruct("Deep", <<F("v", TSeq(TSeq(TOpt(TS("i64"))))), F("m", TMap(TSeq(TS("str"))))>>),
+    VecI32 |-> TSeq(TS("i32")),
+    OptString |-> TOpt(TS("str")),
+    MapI64 |-> TMap(TS("i64")),
+    PairIS |-> TTuple("PairIS", <<TS("i32"), TS("str")>>),
+    I64    |-> TS("i64"),
+    StringT |-> TS("str"),
+    UnitT  |-> TS("unit"),
+    VecE3  |-> TSeq(CE3),
+    ArrI16 |-> TTuple("ArrI16", <<TS("i16"), TS("i16")>>),
+    OptInner |-> TOpt(CInner) ]
+
+(* the Aliased corpus type spells its field by the alias when writing: terms use the alias *)
+UseAlias(sv, from, to) ==
+  [sv EXCEPT !.fields = [i \in 1..Len(sv.fields) |-> IF sv.fields[i][1] = from THEN <<to, sv.fields[i][2]>> ELSE sv.fields[i]]]
+CorpusTerms(name, full) ==
+  IF name = "Aliased" THEN {UseAlias(x, "a", "old_a") : x \in TermsOf(Corpus[name], full)}
+  ELSE TermsOf(Corpus[name], full)
+
 (* a bytes default above 0x7F: code point = byte (Avro specification, "Complex Types / Records") *)
 HighBytesDefault == TStruct("R", <<FD("a", TS("bytes"), "bhigh"), F("z", TS("i32"))>>)
 
@@ -305,7 +384,6 @@ Extra ==
     <<[c |-> "struct", name |-> "P", len |-> 1, fields |-> << <<"x", Iv(3)>> >>], u5>>,
     <<[c |-> "newtype_struct", name |-> "P", v |-> Iv(3)], u5>>,
     <<[c |-> "unit"], u5>>, <<[c |-> "tuple", items |-> <<>>], u5>>, <<[c |-> "tuple", items |-> <<Iv(4)>>], u1>>,
-    <<[c |-> "unit_variant", name |-> "E3", idx |-> 2, variant |-> "C"], u5>>,
     <<[c |-> "unit_struct", name |-> "Unit0"], u5>>,
     <<[c |-> "u64", b |-> <<1, 2, 3, 4, 5, 6, 7, 8>>], u5>>,
     \* seq / map whose length is not known up front (serialize_seq(None)): always buffered
